@@ -84,3 +84,26 @@ func VerifHarness_C05_NegControl() {
 	}
 	verifAssert(md.PixelWidth == ((verifLE32(in, 21)>>1)&0x3fff)+1, "negative control: VP8L width from bits 1..14 (wrong on purpose)")
 }
+
+// VerifBuildWebP builds one of the three well-formed WebP skeletons (symbolic
+// choice): VP8, VP8L, VP8X (ICC flag symbolic; when set an ICCP chunk with 3
+// symbolic bytes follows), each followed by 4 symbolic bytes.
+func VerifBuildWebP() []byte {
+	var in []byte
+	switch verifChoice(3) {
+	case 0:
+		in = verifBytes(34)
+		verifAssume(verifAnd(verifIs4(in, 0, "RIFF"), verifAnd(verifIs4(in, 8, "WEBP"), verifIs4(in, 12, "VP8 "))))
+		verifAssume(verifAnd(in[23] == 0x9d, verifAnd(in[24] == 0x01, in[25] == 0x2a)))
+	case 1:
+		in = verifBytes(29)
+		verifAssume(verifAnd(verifIs4(in, 0, "RIFF"), verifAnd(verifIs4(in, 8, "WEBP"), verifIs4(in, 12, "VP8L"))))
+		verifAssume(in[20] == 0x2f)
+	default:
+		in = verifBytes(45)
+		verifAssume(verifAnd(verifIs4(in, 0, "RIFF"), verifAnd(verifIs4(in, 8, "WEBP"), verifIs4(in, 12, "VP8X"))))
+		verifAssume(verifLE32(in, 16) == 10)
+		verifAssume(verifAnd(verifIs4(in, 30, "ICCP"), verifLE32(in, 34) == 3))
+	}
+	return in
+}
